@@ -28,7 +28,7 @@ func prop(id, title string, rules []string, explain string, notDecided []string,
 
 func init() {
 	prop("C01", "Add/Sub/Mul/Quo/Abs/Neg/Round return the exactly rounded result",
-		[]string{"C01.R1", "C01.R2", "C01.R3", "C01.R4", "C01.R5", "C01.R6", "C20.R1", "C20.R2", "C09.R1", "C05.R4", "C17.R3", "C01.R7", "C10.R3", "C07.R9", "C02.R6", "C01.R8", "C01.R9"},
+		[]string{"C01.R1", "C01.R2", "C01.R3", "C01.R4", "C01.R5", "C01.R6", "C20.R1", "C20.R2", "C09.R1", "C05.R4", "C17.R3", "C01.R7", "C10.R3", "C07.R9", "C02.R6", "C01.R8", "C01.R9", "C01.R10"},
 		"Decides the wiring of the rounding kernel for all inputs: the sign that reaches every rounding decision is the sign of the value being rounded; the half comparison is made on the division remainder and a non-zero remainder always raises Inexact or is folded into the coefficient (no lost remainder); single-rounding operations round at most once per path and never skip it; Precision 0 cannot reach the digit-discarding division; the eight decision functions have exactly their modes' truth tables (finite-domain evaluation) and every digit-dropping site consults them.",
 		[]string{"numeric equality with the once-rounded exact result (alignment, digit arithmetic, carries) — quantifies over coefficient values"})
 	prop("C02", "Condition flags describe exactly what happened to the result",
@@ -36,7 +36,7 @@ func init() {
 		"Decides: the flag set is closed (12 single bits; only | & &^ ^ on Condition values, so no 13th bit for any input); Inexact⇒Rounded, Overflow⇒Inexact and the Underflow guard hold by construction at every raise site; no Condition produced by a callee is dropped or clobbered outside a reasoned table; the division conditions sit under exactly their specification guards; a non-zero division remainder always raises Inexact.",
 		[]string{"\"Inexact iff the result differs from the exact one\" beyond the remainder rule; over-reporting of Rounded"})
 	prop("C03", "Traps turn raised conditions into errors and never change or hide results",
-		[]string{"C03.R1", "C03.R2", "C03.R3", "C03.R4", "C03.R5", "C03.R6", "C03.R7", "C03.R8", "C04.R4"},
+		[]string{"C03.R1", "C03.R2", "C03.R3", "C03.R4", "C03.R5", "C03.R6", "C03.R7", "C03.R8", "C04.R4", "C03.R9"},
 		"Decides the error plumbing on all paths: GoError returns an error iff a system or trapped bit is set (path enumeration); every ErrDecimal wrapper performs exactly the same-named Context call behind the sticky-error guard and accumulates flags; every return of the single-rounding operations passes the trap filter with the flags it returns; errors are never compared with each other; composite functions test ed.Err() before every result-delivering return and destination write; wrapper-driven loops terminate under any trap set; the parsing step does not trap by itself — its conditions reach the caller's single goError.",
 		[]string{"equality of composite-function results across trap sets when no error is returned (depends on which internal conditions arise)"})
 	prop("C04", "Operations are total: no panic and no hang on any well-formed input",
@@ -79,7 +79,7 @@ func init() {
 		[]string{"one-ulp accuracy: series truncation and guard-digit sufficiency are statements about real numbers"})
 	prop("C13", "Text and binary encodings round-trip every Decimal exactly",
 		[]string{"C13.R1", "C13.R2", "C13.R3", "C13.R4", "C13.R5", "C06.R2", "C07.R8"},
-		"Decides writer/reader table agreement: special-name, sign and exponent-marker tokens written by the formatter are the ones the parser accepts and map back to the same Form; Compose and Decompose agree on the form byte and Compose assigns the whole value; the float path uses shortest 64-bit formatting and the package parser; all text producers share one formatter; setExponent applies the package limits to the sum of the exponent terms (so the scientific form of a long coefficient parses back) and stores only exponents within them.",
+		"Decides writer/reader table agreement: special-name, sign and exponent-marker tokens written by the formatter are the ones the parser accepts and map back to the same Form; Compose and Decompose agree on the form byte and Compose assigns the whole value; the float path uses shortest 64-bit formatting and the package parser; all text producers share one formatter; setExponent applies the package limits to the sum of the exponent terms (so the scientific form of a long coefficient parses back) stores no exponent above them and refuses no value for an exponent below them whose adjusted exponent is inside.",
 		[]string{"digit/point placement round-trip for every exponent (string arithmetic in fmtE/fmtF vs the parser)"})
 	prop("C14", "String is the GDA scientific string; parsing accepts exactly its grammar",
 		[]string{"C04.R5", "C14.R2", "C14.R3", "C14.R4", "C14.R5", "C14.R6", "C14.R7", "C14.R8", "C14.R9", "C14.R10", "C14.R11", "C13.R1", "C13.R5", "C07.R5", "C14.R12", "C07.R8"},
@@ -103,7 +103,7 @@ func init() {
 		[]string{"\"returns exactly what it returns alone\" follows from race freedom plus C06 determinism; not checked separately"},
 		"math/big does not write its read-only arguments", "Go memory model: package initialisation happens-before any use")
 	prop("C19", "Reduce and NumDigits are exact",
-		[]string{"C04.R2", "C06.R1", "C07.R4", "C19.R3", "C19.R4", "C19.R5", "C04.R3", "C05.R4", "C17.R3", "C16.R5"},
+		[]string{"C04.R2", "C06.R1", "C07.R4", "C19.R3", "C19.R4", "C19.R5", "C19.R6", "C04.R3", "C05.R4", "C17.R3", "C16.R5"},
 		"Decides: no nil pointer reaches NumDigits' comparison on the >128-bit negative path; Decimal.Reduce's count reads the operand, never the destination; Context.Reduce strips after rounding and restores the operand's sign; NumDigits' positive and negative arms are mirror images over the same table entry and the table index is guarded.",
 		[]string{"that the table contents and the float estimate are right (numeric; initialisation code)"})
 	prop("C20", "Rounding modes bracket each other and rounding is monotone",
